@@ -42,6 +42,9 @@ type loginPlan struct {
 	// bytes 0x00; "spaces-end": the last two bytes are blanks (a nonce is binary data: every byte counts)
 	NonceShape string `json:"nonce_shape,omitempty"`
 	Remote     int    `json:"remote"`
+	// CapVariant: which capabilities the scripted server grants - 0: a scattered set; 1: whole mask bytes (0xff)
+	// among them; 2: everything; 3: alternating bit patterns.
+	CapVariant int    `json:"cap_variant,omitempty"`
 	Phase1     []lPkg `json:"phase1"`
 	Phase2     []lPkg `json:"phase2"`
 	Trunc1     int    `json:"trunc1"` // -1: deliver all with end-of-message; j: deliver only the first j packages, no end-of-message
@@ -293,6 +296,7 @@ func genLoginPlan(r *Rand, encrypted bool) *loginPlan {
 		p.RemoteN = append(p.RemoteN, "srv"+randName(r, r.Intn(10)))
 		p.RemotePw = append(p.RemotePw, hexOf([]byte("rpw-"+randName(r, 4+r.Intn(12)))))
 	}
+	p.CapVariant = r.Intn(4)
 	return p
 }
 
@@ -524,9 +528,37 @@ func capsDiffOf(conn *tds.Conn) string {
 	return diff
 }
 
+// capVariant is set from the plan at the start of every run (runs are sequential within a worker process).
+var capVariant int
+
 func capMasks() (req, resp []byte) {
 	req = peer.CapMask(14, 1, 3, 5, 6, 12, 13, 18, 24, 39, 62, 73, 101)
 	resp = peer.CapMask(7, 1, 2, 9, 35, 40)
+	switch capVariant {
+	case 1:
+		// whole bytes of the masks set
+		for c := 40; c < 48; c++ {
+			req[len(req)-1-c/8] |= 1 << uint(c%8)
+		}
+		for c := 16; c < 24; c++ {
+			resp[len(resp)-1-c/8] |= 1 << uint(c%8)
+		}
+		req[0], resp[len(resp)-1] = 0xff, 0xff
+	case 2:
+		for i := range req {
+			req[i] = 0xff
+		}
+		for i := range resp {
+			resp[i] = 0xff
+		}
+	case 3:
+		for i := range req {
+			req[i] = []byte{0x55, 0xaa, 0x7f, 0xfe, 0x80, 0x01}[i%6]
+		}
+		for i := range resp {
+			resp[i] = []byte{0xaa, 0x55, 0xfe, 0x7f}[i%4]
+		}
+	}
 	return
 }
 
@@ -562,6 +594,7 @@ func runLogin(p *loginPlan, schedSeed uint64, replay []simrt.Choice, lenient, ke
 	}
 	s := simrt.New(cfg)
 	pr := NewTDSPeer(s)
+	capVariant = p.CapVariant
 	wire := func(pr *TDSPeer, p *loginPlan) {
 		pr.Async = p.Async
 		reply := func(items []lPkg, trunc int, cuts []int, isLast bool) {
